@@ -288,6 +288,16 @@ def base_queries(backend, tier):
         "Select(EventDataset('ds'), lambda e: (e.PRIM('A').Select(lambda j: j.pt()), e.SEC('B').Select(lambda t: t.pt()), e.PRIM('A').Count()))",
         "Select(EventDataset('ds'), lambda e: e.PRIM('A').Select(lambda j: e.SEC('B').Select(lambda t: e.PRIM('A').Where(lambda k: k.pt() > t.pt()).Count() + t.eta()).Sum() + j.eta()))",
     ]
+    if backend == "atlas":
+        # injected (built-in) methods / functions called with the same arguments on DIFFERENT objects in nested lambdas: whatever the
+        # parameters are called, each call is about its own receiver
+        qs += [
+            "Select(EventDataset('ds'), lambda e: e.PRIM('A').Where(lambda j: j.getAttributeFloat('emf') > 0.1).Select(lambda j: e.PRIM('B').Where(lambda k: k.getAttributeFloat('emf') > 0.5).Count()))",
+            "Select(EventDataset('ds'), lambda e: e.PRIM('A').Select(lambda j: e.PRIM('B').Select(lambda k: k.getAttributeFloat('w') + j.getAttributeFloat('w')).Sum() + j.getAttributeFloat('w')))",
+            "Select(EventDataset('ds'), lambda e: e.PRIM('A').Select(lambda j: j.getAttributeFloat('w') * e.SEC('B').Where(lambda t: t.getAttributeFloat('w') > 1.5).Count()))",
+            "Select(EventDataset('ds'), lambda e: e.PRIM('A').Where(lambda j: j.getAttributeFloat('w') > 0.5).Select(lambda k: k.getAttributeFloat('w')))",
+            "Select(EventDataset('ds'), lambda e: e.PRIM('A').Select(lambda j: e.SEC('B').Where(lambda t: DeltaR(t.eta(), t.phi(), 0.5, 0.5) < 1.5).Count() + DeltaR(j.eta(), j.phi(), 0.5, 0.5)))",
+        ]
     qs = [q.replace("PRIM", v["prim"]).replace("SEC", v["sec"]) for q in qs]
     with_md = []
     multi_step = [x.replace("PRIM", v["prim"]).replace("SEC", v["sec"]) for x, _ in FUSION_PAIRS] + [x for x in qs if x.startswith(("Select(Select(", "Select(Where(", "Select(SelectMany("))]
@@ -331,7 +341,17 @@ def compare(a, b, backend, src):
     from .C07 import semantic_equal
     eq, why = semantic_equal(src, a["files"], b["files"], dm=a.get("dm"), backend=backend)
     if eq is True:
-        return "benign", f"text differs in {diff} but {why}"
+        # which lines differ?  The First() failure message (it embeds the query text, parameter names included) is a listed
+        # finding; any other difference that renumbering does not explain is reported even though the rows are equal
+        import difflib
+        other = []
+        for k in diff:
+            for ln in difflib.unified_diff(a["canon"][k].splitlines(), b["canon"].get(k, "").splitlines(), lineterm="", n=0):
+                if ln[:1] in "+-" and not ln.startswith(("+++", "---")) and "First() called on an empty sequence" not in ln:
+                    other.append(ln.strip()[:160])
+        if other:
+            return "differ", f"package text differs beyond the numbering of generated names in {diff} (rows equal for all events): {other[:4]}"
+        return "benign", f"first-message: text differs in {diff} only in the First() failure message; {why}"
     if eq is False:
         return "differ", f"{diff}: {why}"
     return "inconclusive", why
@@ -413,6 +433,7 @@ def main():
     results = pmap(work, items, a.jobs)
     from ..common import load_known_findings
     kfs = [f for f in load_known_findings("C08") if f.get("status") == "known" and f.get("label_regex")]
+    fm = next((f for f in load_known_findings("C08") if f["id"] == "KF-first-message-embeds-query-text" and f.get("status") == "known"), None)
     counts = {}
     samples = []
     benign = []
@@ -430,6 +451,9 @@ def main():
                 nontrivial += 1
             if r["verdict"] == "benign":
                 benign.append((tag, r["text"]))
+                if fm is not None and r["text"].startswith("first-message"):
+                    rep.discharged -= 1
+                    rep.known(fm["id"], fm["what"][:200] + f" | observed: {tag[:160]}")
         elif r["verdict"] == "differ" and any(re.fullmatch(f["label_regex"], it[2]) and f["text_regex"] in r["text"] and (not f.get("src_regex") or re.search(f["src_regex"], it[3])) for f in kfs):
             f = next(f for f in kfs if re.fullmatch(f["label_regex"], it[2]) and f["text_regex"] in r["text"] and (not f.get("src_regex") or re.search(f["src_regex"], it[3])))
             rep.known(f["id"], f["what"][:200] + f" | observed: {tag[:160]}")
@@ -456,8 +480,8 @@ def main():
     }
     sys.exit(rep.finish(cov, [
         "variants are enumerated (symbolic parameter names do not terminate in CrossHair), the solver quantifies over events when texts differ",
-        "a purely textual difference with proven semantic equality is logged as benign, not raised (stated reading of 'the same up to numbering')",
-        "the First() failure message embeds the query text (with its parameter names): such purely textual differences are decided semantically"]))
+        "a textual difference that the numbering of generated names does not explain is reported even when engine A proves the two packages equivalent; "
+        "the one exception is the First() failure message, which embeds the query text (known finding KF-first-message-embeds-query-text)"]))
 
 
 if __name__ == "__main__":
